@@ -153,6 +153,34 @@ func propC20(o *propOpts) *propResult {
 			res.fail(fmt.Sprintf("pos:%s:%d:%d", hx(s), pos, end), s, fmt.Sprintf("Position(%d,%d)", pos, end), d)
 		}
 	}
+	// positions on which the POS channel disagreed are searched first
+	for _, h := range o.hints {
+		var hx1 string
+		var pos, end int
+		if n, _ := fmt.Sscanf(h, "POS %s %d %d", &hx1, &pos, &end); n == 3 {
+			if b, ok := unhex(hx1); ok && 0 <= pos && pos <= end && end <= len(b) {
+				try(string(b), pos, end)
+			}
+		}
+	}
+	// texts with many lines: every line start, line end and one interior offset as pos, ends up to 3 lines later
+	manyLines(o.tier, func(s string, starts []int) {
+		res.count("many_lines_text")
+		for i, st := range starts {
+			for _, pos := range []int{st, st + 1, st - 1} {
+				if pos < 0 || pos > len(s) {
+					continue
+				}
+				for j := i; j < len(starts) && j <= i+3; j++ {
+					for _, end := range []int{starts[j], starts[j] + 2} {
+						if end >= pos && end <= len(s) {
+							try(s, pos, end)
+						}
+					}
+				}
+			}
+		}
+	})
 	posTexts(maxSyms, func(s string) {
 		res.count(fmt.Sprintf("enum_len_%d", len(s)))
 		for pos := 0; pos <= len(s); pos++ {
@@ -181,4 +209,33 @@ func propC20(o *propOpts) *propResult {
 	})
 	res.Hist["errors_checked"] = nerr
 	return res
+}
+
+// manyLines produces texts with 2..N lines of varied lengths (incl. empty lines, with and without a trailing newline)
+// together with the offsets at which their lines start.
+func manyLines(tier string, emit func(s string, starts []int)) {
+	maxN := 40
+	if tier == "thorough" {
+		maxN = 300
+	}
+	for n := 2; n <= maxN; n++ {
+		for variant := 0; variant < 3; variant++ {
+			var sb []byte
+			starts := []int{0}
+			for i := 0; i < n; i++ {
+				l := (i*7 + variant*3 + n) % 5
+				if variant == 2 {
+					l = i % 2
+				}
+				for k := 0; k < l; k++ {
+					sb = append(sb, byte('a'+(i+k)%26))
+				}
+				if i+1 < n || variant == 1 {
+					sb = append(sb, 10)
+					starts = append(starts, len(sb))
+				}
+			}
+			emit(string(sb), starts)
+		}
+	}
 }
